@@ -31,6 +31,24 @@ class Interp(pyk.Interp):
     """pyk plus set / dict comprehensions over concrete iterables (used by _impute_type)."""
 
     def eval(self, e, env, globs):
+        if isinstance(e, (ast.ListComp, ast.GeneratorExp)) and len(e.generators) > 1:
+            out = []
+
+            def rec(gens, env_):
+                if not gens:
+                    out.append(self.eval(e.elt, env_, globs))
+                    return
+                g = gens[0]
+                it = self.eval(g.iter, env_, globs)
+                if pyk.is_sym(it):
+                    raise HarnessError('comprehension over a symbolic iterable')
+                for x in list(it):
+                    sub = pyk.Env(env_)
+                    self.assign(g.target, x, sub, globs)
+                    if all(self.branch(self.truth(self.eval(c, sub, globs))) for c in g.ifs):
+                        rec(gens[1:], sub)
+            rec(e.generators, env)
+            return out
         if isinstance(e, ast.SetComp):
             lc = ast.copy_location(ast.ListComp(elt=e.elt, generators=e.generators), e)
             return set(super().eval(lc, env, globs))
@@ -221,6 +239,19 @@ def unify(ts):
     if all(isinstance(t, tuple) and t[0] == 'array' for t in ts):
         u = unify([t[1] for t in ts])
         return REJECT if u is REJECT else ('array', u)
+    if all(isinstance(t, tuple) and t[0] == 'dict' for t in ts):
+        k, v = unify([t[1] for t in ts]), unify([t[2] for t in ts])
+        return REJECT if REJECT in (k, v) else ('dict', k, v)
+    if all(isinstance(t, tuple) and t[0] == 'struct' for t in ts):
+        # structs unify field-wise over the union of their fields (a field absent from a value is a missing value)
+        names = list(dict.fromkeys(n for t in ts for n, _ in t[1]))
+        out = []
+        for n in names:
+            u = unify([dict(t[1])[n] for t in ts if n in dict(t[1])])
+            if u is REJECT:
+                return REJECT
+            out.append((n, u))
+        return ('struct', tuple(out))
     if all(t == ts[0] for t in ts):
         return ts[0]
     return REJECT
